@@ -9,6 +9,7 @@
 
 #include <Eigen/Core>
 #include <cmath>      // std::sqrt
+#include <algorithm>  // std::max
 #include <utility>    // std::move
 #include <stdexcept>  // std::invalid_argument
 
@@ -56,6 +57,7 @@ protected:
     Matrix m_fac_H;      // H matrix in the Arnoldi factorization
     Vector m_fac_f;      // residual in the Arnoldi factorization
     RealScalar m_beta;   // ||f||, B-norm of f
+    RealScalar m_scale;  // largest ||A * v|| seen since init(), a lower estimate of ||A||
 
     // Given orthonormal basis V (w.r.t. B), find a nonzero vector f such that (V^H)Bf = 0
     // With rounding errors, we hope ||(V^H)Bf|| < eps * ||f||
@@ -169,6 +171,7 @@ public:
         m_op.perform_op(v.data(), w.data());
         op_counter++;
 
+        m_scale = m_op.norm(w);
         m_fac_H(0, 0) = m_op.inner_product(v, w);
         m_fac_f.noalias() = w - v * m_fac_H(0, 0);
         // f / ||f|| is going to be the next column of V, so (as in factorize_from())
@@ -249,6 +252,7 @@ public:
             // w <- A * v, v = m_fac_V.col(i)
             m_op.perform_op(&m_fac_V(0, i), w.data());
             op_counter++;
+            m_scale = (std::max)(m_scale, m_op.norm(w));
 
             const Index i1 = i + 1;
             // First i+1 columns of V
@@ -275,9 +279,9 @@ public:
                 // likely to fail. In particular, if beta=0, then the test is ensured to fail.
                 // Hence when this happens, we force f to be zero, and then restart in the
                 // next iteration.
-                // "Close to zero" is measured against the magnitude of the projected matrix H
-                // (i.e. of A on the current subspace), not against 1
-                if (m_beta < beta_thresh * m_fac_H.topLeftCorner(i1, i1).cwiseAbs().maxCoeff())
+                // "Close to zero" is measured against the magnitude of A (estimated by the
+                // largest ||A * v|| seen so far), not against 1
+                if (m_beta < beta_thresh * m_scale)
                 {
                     m_fac_f.setZero();
                     m_beta = RealScalar(0);
